@@ -23,9 +23,11 @@ import (
 	"fmt"
 	"os"
 	"os/exec"
+	"path"
 	"path/filepath"
 	"runtime/debug"
 	"runtime/pprof"
+	"sort"
 	"strings"
 	"sync"
 	"sync/atomic"
@@ -101,8 +103,10 @@ type c02Case struct {
 	Base      string       `json:"base,omitempty"`    // repository-relative seed fixture
 	Raw       string       `json:"raw_b64,omitempty"` // literal seed bytes when there is no fixture
 	Muts      []Mut        `json:"muts,omitempty"`
+	AuxPath   string       `json:"aux_path,omitempty"` // a neighbour file of the fixture (etc/os-release, _locales/..., go.sum) mutated by AuxMuts
+	AuxMuts   []Mut        `json:"aux_muts,omitempty"`
 	Contain   bool         `json:"contain,omitempty"`
-	ScanOpts  int          `json:"scan_opts,omitempty"` // containment scans: 1 ErrorOnFSErrors, 2 StoreAbsolutePath, 4 UseGitignore, 8 PrintDurationAnalysis
+	ScanOpts  int          `json:"scan_opts,omitempty"` // containment scans: 1 ErrorOnFSErrors, 2 StoreAbsolutePath, 4 UseGitignore, 8 PrintDurationAnalysis, 16 every extractor of the registry enabled (not only the three concerned)
 	Healthy   []healthyRef `json:"healthy,omitempty"`
 }
 
@@ -239,6 +243,13 @@ func genMut(t *rapid.T, e *extInfo, depth int) Mut {
 	case "eol":
 		m.A = ubits(t, "a", 16)
 		m.B = upick(t, "b", len(lineEnds))
+	case "subdel":
+		m.A = ubits(t, "a", 12)
+		m.B = ubits(t, "b", 6)
+	case "elfsec":
+		m.A = ubits(t, "a", 6)
+		m.B = upick(t, "b", 4)
+		m.S = string(rune('a' + upick(t, "s", len(elfHostile))))
 	case "swapline", "swaptok", "flip", "delrange", "repeat":
 		m.A = ubits(t, "a", 16)
 		m.B = ubits(t, "b", 10)
@@ -317,6 +328,23 @@ func genC02(t *rapid.T) c02Case {
 	for i := 0; i < n; i++ {
 		c.Muts = append(c.Muts, genMut(t, e, 0))
 	}
+	if c.Base != "" && rapid.IntRange(0, 9).Draw(t, "aux") == 0 {
+		// mutate a neighbour file instead (the fixture itself stays whole so that the extractor
+		// gets as far as reading the neighbour)
+		aux := auxFiles(e, c.Base, c.Path)
+		var names []string
+		for p := range aux {
+			names = append(names, p)
+		}
+		sort.Strings(names)
+		if len(names) > 0 {
+			c.AuxPath = names[upick(t, "aux_path", len(names))]
+			c.AuxMuts, c.Muts = c.Muts, nil
+			if len(c.AuxMuts) == 0 {
+				c.AuxMuts = []Mut{genMut(t, e, 1)}
+			}
+		}
+	}
 	col := c02col()
 	if yamlExtractors[e.Name] && col.IsKnown(classYAMLDup) {
 		for i := range c.Muts {
@@ -349,7 +377,7 @@ func genC02(t *rapid.T) c02Case {
 }
 
 // scanOptChoices are the option sets of containment scans (see scanTree).
-var scanOptChoices = []int{0, 0, 1, 1, 1, 2, 3, 4, 5, 8, 15}
+var scanOptChoices = []int{0, 0, 1, 1, 1, 2, 3, 4, 5, 8, 15, 16, 16, 17, 17, 19, 31}
 
 // pickHealthy chooses the two healthy neighbours of a containment case, starting the search
 // at pool index start; it clears Contain when the pool has no compatible pair.
@@ -440,7 +468,7 @@ func serveCase(r execRequest) execReply {
 		rep.Harness = err.Error()
 		return rep
 	}
-	res, err := runExtract(e, c.Base, c.Path, data, 10*time.Minute) // the parent owns the deadline
+	res, err := runExtract(e, c.Base, c.Path, data, 10*time.Minute, auxOverride(e, c.Base, c.Path, c.AuxPath, c.AuxMuts)) // the parent owns the deadline
 	if err != nil {
 		rep.Harness = err.Error()
 		return rep
@@ -451,7 +479,9 @@ func serveCase(r execRequest) execReply {
 	if res.Err != nil {
 		rep.HasErr, rep.Err = true, res.Err.Error()
 	}
-	if c.Contain && res.Err != nil && !res.Panicked && !res.AllocStopped && len(c.Healthy) == 2 && res.Dur <= wallBudget && res.Alloc <= allocBudget {
+	// (a case that mutates a neighbour file gets no containment scan: neighbours such as
+	// etc/os-release are read by many extractors by design)
+	if c.Contain && c.AuxPath == "" && res.Err != nil && !res.Panicked && !res.AllocStopped && len(c.Healthy) == 2 && res.Dur <= wallBudget && res.Alloc <= allocBudget {
 		if cerr := checkContainment(e, c, data); cerr != nil {
 			rep.Contain = cerr.Error()
 		} else {
@@ -674,6 +704,14 @@ func propC02(c c02Case) (ev.Outcome, error) {
 	for _, m := range c.Muts {
 		out.Classes = append(out.Classes, "mut:"+m.Op)
 	}
+	for p, b := range auxOverride(e, c.Base, c.Path, c.AuxPath, c.AuxMuts) {
+		asum := sha256.Sum256(b)
+		out.Key += "\x00" + p + "\x00" + hex.EncodeToString(asum[:])
+		out.Classes = append(out.Classes, "aux_mutated", "aux_mutated:"+path.Base(p))
+		for _, m := range c.AuxMuts {
+			out.Classes = append(out.Classes, "mut:"+m.Op)
+		}
+	}
 	result := func(res string) {
 		out.Classes = append(out.Classes, "ext:"+c.Extractor+":"+res, "result:"+res)
 	}
@@ -852,6 +890,7 @@ func checkContainment(e *extInfo, c c02Case, data []byte) error {
 	if err := writeAux(root, auxFiles(e, c.Base, c.Path)); err != nil {
 		return fmt.Errorf("harness: %w", err)
 	}
+
 	for i, h := range c.Healthy {
 		he := Lookup(h.Extractor)
 		if he == nil {
@@ -867,6 +906,28 @@ func checkContainment(e *extInfo, c c02Case, data []byte) error {
 		exts = append(exts, he)
 	}
 	caps := capsFor(e)
+	if c.ScanOpts&16 != 0 {
+		// the way a default scan runs: every extractor enabled, so that several extractors are
+		// asked about (and may accept) the same files; the list starts at a case-dependent place
+		reg := Registry()
+		start := (len(c.Path) + len(c.Healthy[0].Path) + len(data)) % len(reg)
+		keep := map[string]bool{e.Name: true, c.Healthy[0].Extractor: true, c.Healthy[1].Extractor: true}
+		exts = nil
+		for i := range reg {
+			x := reg[(start+i)%len(reg)]
+			if keep[x.Name] || plugin.ValidateRequirements(x.New(), caps) == nil {
+				exts = append(exts, x)
+			}
+		}
+	}
+	var alone scanSummary
+	if c.ScanOpts&16 != 0 {
+		var p0 string
+		alone, p0 = scanTree(root, []*extInfo{e, Lookup(c.Healthy[0].Extractor), Lookup(c.Healthy[1].Extractor)}, caps, c.ScanOpts)
+		if p0 != "" {
+			return fmt.Errorf("scan of the tree WITHOUT the offending file panics: %s", p0)
+		}
+	}
 	before, p := scanTree(root, exts, caps, c.ScanOpts)
 	if p != "" {
 		return fmt.Errorf("scan of the tree WITHOUT the offending file panics: %s", p)
@@ -875,6 +936,10 @@ func checkContainment(e *extInfo, c c02Case, data []byte) error {
 		return fmt.Errorf("harness: baseline scan status %s: %s", statusName(before.Status), before.Reason)
 	}
 	for _, h := range c.Healthy {
+		if c.ScanOpts&16 != 0 && alone.Statuses[h.Extractor] == plugin.ScanStatusSucceeded &&
+			(strings.Join(alone.Pkgs[h.Extractor], "\n") != strings.Join(before.Pkgs[h.Extractor], "\n") || before.Statuses[h.Extractor] != plugin.ScanStatusSucceeded) {
+			return fmt.Errorf("containment: %s reports %v (status %s) for its healthy file %s when every extractor is enabled (%d), but %v when only the extractors concerned are: what another extractor did with that file changed its result", h.Extractor, before.Pkgs[h.Extractor], statusName(before.Statuses[h.Extractor]), h.Path, len(exts), alone.Pkgs[h.Extractor])
+		}
 		if len(before.Pkgs[h.Extractor]) == 0 || before.Statuses[h.Extractor] != plugin.ScanStatusSucceeded {
 			return fmt.Errorf("harness: healthy neighbour %s yields %d packages, status %s (%s)", h.Extractor, len(before.Pkgs[h.Extractor]), statusName(before.Statuses[h.Extractor]), before.Reasons[h.Extractor])
 		}
@@ -1054,7 +1119,7 @@ func TestC02_isolated(t *testing.T) {
 	if os.Getenv("C02_DUMP") != "" {
 		limit = 3 * time.Second
 	}
-	r, err := runExtract(e, c.Base, c.Path, data, limit)
+	r, err := runExtract(e, c.Base, c.Path, data, limit, auxOverride(e, c.Base, c.Path, c.AuxPath, c.AuxMuts))
 	if r.TimedOut && os.Getenv("C02_DUMP") != "" {
 		_ = pprof.Lookup("goroutine").WriteTo(os.Stdout, 2)
 	}
